@@ -560,7 +560,7 @@ func GenScript(t *rapid.T, prop, profile string, o GenOpts) *Script {
 	var leaves []string
 	s.World.Queues, leaves = genQueues(t, o)
 	if o.Priorities {
-		s.World.PriorityClasses = []PriorityClassSpec{{"train", 50}, {"build", 100}, {"inference", 125}, {"low", 25}}
+		s.World.PriorityClasses = []PriorityClassSpec{{Name: "train", Value: 50}, {Name: "build", Value: 100}, {Name: "inference", Value: 125}, {Name: "low", Value: 25}}
 	}
 	s.World.Workloads = genWorkloads(t, o, leaves, s.World.Nodes, s.World.PriorityClasses)
 	if o.Running {
@@ -568,7 +568,7 @@ func GenScript(t *rapid.T, prop, profile string, o GenOpts) *Script {
 	}
 	if o.Twins {
 		// legal extremes of the int32 priority range (user classes go up to 10^9, negative values are allowed)
-		s.World.PriorityClasses = append(s.World.PriorityClasses, PriorityClassSpec{"huge", 1000000000}, PriorityClassSpec{"deep", -1500000000})
+		s.World.PriorityClasses = append(s.World.PriorityClasses, PriorityClassSpec{Name: "huge", Value: 1000000000}, PriorityClassSpec{Name: "deep", Value: -1500000000})
 		n := len(s.World.Workloads)
 		for i := 0; i < n && len(s.World.Workloads) < 14; i++ {
 			w := s.World.Workloads[i]
@@ -910,8 +910,11 @@ func GenC20Script(t *rapid.T, thorough bool) *Script {
 	}
 	var leaves []string
 	c.World.Queues, leaves = genQueues(t, o)
-	c.World.PriorityClasses = []PriorityClassSpec{{"train", 50}, {"build", 100}, {"inference", 125}, {"low", 25}}
+	c.World.PriorityClasses = []PriorityClassSpec{{Name: "train", Value: 50}, {Name: "build", Value: 100}, {Name: "inference", Value: 125}, {Name: "low", Value: 25}}
 	c.World.Workloads = genWorkloads(t, o, leaves, c.World.Nodes, c.World.PriorityClasses)
+	if chance(t, "globaldefault", 30) { // a cluster-wide default priority class: what a pod group without (known) class gets
+		c.World.PriorityClasses = append(c.World.PriorityClasses, PriorityClassSpec{Name: "cluster-default", Value: int32(pick(t, "gdvalue", 40, 100, 150)), GlobalDefault: true})
+	}
 	for wi := range c.World.Workloads {
 		for pi := range c.World.Workloads[wi].Pods {
 			p := &c.World.Workloads[wi].Pods[pi]
@@ -944,7 +947,7 @@ func GenC20Script(t *rapid.T, thorough bool) *Script {
 		case "pg_preemptibility":
 			st = C20Step{Kind: "pg_preemptibility", Arg: pick(t, "pg", pgs...), Val: pick(t, "pre", "preemptible", "non-preemptible", "")}
 		case "pg_priority":
-			st = C20Step{Kind: "pg_priority", Arg: pick(t, "pg", pgs...), Val: pick(t, "pc", "train", "build", "inference", "low", "missing")}
+			st = C20Step{Kind: "pg_priority", Arg: pick(t, "pg", pgs...), Val: pick(t, "pc", "train", "build", "inference", "low", "missing", "")}
 		case "pg_queue":
 			st = C20Step{Kind: "pg_queue", Arg: pick(t, "pg", pgs...), Val: pick(t, "q", leaves...)}
 		case "queue_parent":
@@ -991,7 +994,7 @@ func genStarvedQueueWorld(t *rapid.T, o GenOpts) *Script {
 		{Name: "greedy", GPU: QRes{Quota: float64(qa), Limit: -1, Weight: pick(t, "swa", 0.0, 1.0, 2.0)}, CPU: unl, Mem: unl},
 		{Name: "starved", GPU: QRes{Quota: float64(qb), Limit: -1, Weight: pick(t, "swb", 0.0, 1.0, 2.0)}, CPU: unl, Mem: unl},
 	}
-	s.World.PriorityClasses = []PriorityClassSpec{{"train", 50}, {"build", 100}, {"inference", 125}, {"low", 25}}
+	s.World.PriorityClasses = []PriorityClassSpec{{Name: "train", Value: 50}, {Name: "build", Value: 100}, {Name: "inference", Value: 125}, {Name: "low", Value: 25}}
 	used := 0
 	add := func(name, queue string, gpus int, running bool, age int) {
 		w := WorkloadSpec{Name: name, Queue: queue, MinMember: 1, PriorityClass: "train", AgeSec: int64(age)}
@@ -1042,7 +1045,7 @@ func genPooledGangWorld(t *rapid.T, o GenOpts) *Script {
 		s.World.Nodes = append(s.World.Nodes, NodeSpec{Name: "n1", CPUm: 64000, MemMi: 262144, Pods: 110, GPUs: int64(spare), Labels: map[string]string{"pool": "b"}})
 	}
 	unl := QRes{Quota: -1, Limit: -1, Weight: 1}
-	s.World.PriorityClasses = []PriorityClassSpec{{"train", 50}, {"build", 100}, {"inference", 125}, {"low", 25}}
+	s.World.PriorityClasses = []PriorityClassSpec{{Name: "train", Value: 50}, {Name: "build", Value: 100}, {Name: "inference", Value: 125}, {Name: "low", Value: 25}}
 	nq := rapid.IntRange(2, 3).Draw(t, "pqueues")
 	free := g
 	for i := 0; i < nq; i++ {
